@@ -178,7 +178,9 @@ fn scenario(seed: u64, rep: &Report, dedicated: bool) -> Result<(), String> {
                                 problems.push(format!("Portal cycle: BEGIN answered {}", summarize(&r)));
                             }
                             let params: Vec<Option<Vec<u8>>> = t.types.iter().map(|_| Some(b"7".to_vec())).collect();
-                            let portal = format!("{}_cur", cid);
+                            // portals and statements have separate namespaces: half the time the portal
+                            // carries the very name of the statement it is bound to
+                            let portal = if rng.chance(1, 2) { name.clone() } else { format!("{}_cur", cid) };
                             for round in 0..2 {
                                 let mut b = proto::bind(&portal, &name, &[], &params, &[]);
                                 b.extend(proto::execute(&portal, 0));
